@@ -162,6 +162,16 @@ def oracles(h0, script, obs):
                     bad.append(("exec-after-last-result", "a task ran after the last result notification of its worker"))
                 if nseq and nseq[-1] == "start":
                     bad.append(("bracket:start-without-result", "worker ended after 'start' without a result notification"))
+        elif e == "cleanup":
+            # RimeSyncUserData: every session is destroyed BEFORE the call schedules its tasks and starts its worker (theorem
+            # C15_sync_user_data_cleans_first): a worker spawned by the call that is still in progress must not be running yet
+            j = i - 1
+            while j >= 0 and not obs[j].startswith("ret:"):
+                if obs[j] == "spawn":
+                    bad.append(("excl:sessions-destroyed-after-own-worker-started",
+                                "sync_user_data destroyed the sessions after the maintenance thread it started was already running"))
+                    break
+                j -= 1
         elif e == "accept":
             if alive:
                 bad.append(("excl:session-op-during-maintenance", "a session operation passed disabled() while the worker was running"))
